@@ -340,6 +340,13 @@ func init() {
 			}
 			return regexp.MustCompile(str(a[1])).MatchString(str(a[0]))
 		},
+		"Decimal": func(fr *frame, a []value) value {
+			if sv, ok := a[0].(symv); ok {
+				t := toInt(sv).(symv)
+				return (&sstr{[]spart{{sym: &t}}}).norm()
+			}
+			return fmt.Sprint(asInt64(a[0]))
+		},
 		"Contains": func(fr *frame, a []value) value {
 			if isSymStr(a[0]) || isSymStr(a[1]) {
 				return boolTerm("(str.contains " + strTerm(a[0]) + " " + strTerm(a[1]) + ")")
